@@ -2070,7 +2070,12 @@ func (a *align) Concat(c Alignment) (err error) {
 		if !ok {
 			// This sequence is present in c but not in a
 			// So we add it to a, with gaps only
-			err = a.AddSequence(name, strings.Repeat(string(GAP), a.Length()), comment)
+			// (an empty alignment has no length: nothing to fill)
+			alen := a.Length()
+			if alen < 0 {
+				alen = 0
+			}
+			err = a.AddSequence(name, strings.Repeat(string(GAP), alen), comment)
 		}
 		// Then we append the c sequence to a
 		err = a.appendToSequence(name, sequence)
